@@ -169,8 +169,15 @@ func (e *effEngine) cells(v ssa.Value, acc map[string]bool, seen map[ssa.Value]b
 		acc["G:"+x.Name()] = true
 	case *ssa.FieldAddr:
 		acc[cellKeyField(x)] = true
+		if g := globalRoot(x.X); g != nil {
+			acc["G:"+g.Name()] = true
+		}
 	case *ssa.IndexAddr:
 		acc["E:"+deref(x.Type()).String()] = true
+		// an element of a package-level table (or of a table reachable from one) is package-level state too
+		if g := globalRoot(x.X); g != nil {
+			acc["G:"+g.Name()] = true
+		}
 	case *ssa.Parameter:
 		pi := paramIndex(x)
 		for _, cs := range e.callers[x.Parent()] {
@@ -1000,4 +1007,33 @@ func (e *effEngine) reachableFrom(entries []*ssa.Function) map[*ssa.Function]boo
 		visit(cg.Nodes[f])
 	}
 	return seen
+}
+
+// globalRoot: v is a package-level variable, or an address/value obtained from one by loads, field/element selection and
+// re-slicing only (the contents of a global container).
+func globalRoot(v ssa.Value) *ssa.Global {
+	for d := 0; d < 8; d++ {
+		switch x := v.(type) {
+		case *ssa.Global:
+			return x
+		case *ssa.UnOp:
+			if x.Op != token.MUL {
+				return nil
+			}
+			v = x.X
+		case *ssa.FieldAddr:
+			v = x.X
+		case *ssa.IndexAddr:
+			v = x.X
+		case *ssa.Slice:
+			v = x.X
+		case *ssa.Field:
+			v = x.X
+		case *ssa.Index:
+			v = x.X
+		default:
+			return nil
+		}
+	}
+	return nil
 }
